@@ -246,22 +246,28 @@ class Parser:
         return left
 
     def parse_infix_expression(self, left: Expression) -> Expression:
-        token = self.next()
+        """Parse a run of one infix operator: `left op term op term ...`.
+
+        The operands of a run are collected in a loop, so a long flat choice or
+        sequence does not cost a Python stack frame per operand.
+        """
+        token = self.current()
         kind = token.kind
         precedence = PRECEDENCES.get(kind, PRECEDENCE_LOWEST)
-        right = self.parse_expression(precedence)
+
+        if kind not in INFIX_OPERATORS:
+            self.pos += 1
+            raise PestGrammarSyntaxError(f"unexpected operator {kind}", token=token)
+
+        operands = [left]
+        while self.current().kind == kind:
+            self.pos += 1
+            # Operands bind tighter than the operator of the run.
+            operands.append(self.parse_expression(precedence + 1))
 
         if kind == TokenKind.CHOICE_OP:
-            if isinstance(right, Choice):
-                return Choice(left, *right.expressions)
-            return Choice(left, right)
-
-        if kind == TokenKind.SEQUENCE_OP:
-            if isinstance(right, Sequence):
-                return Sequence(left, *right.expressions)
-            return Sequence(left, right)
-
-        raise PestGrammarSyntaxError(f"unexpected operator {kind}", token=token)
+            return Choice(*operands)
+        return Sequence(*operands)
 
     def parse_postfix_expression(self, expr: Expression) -> Expression:
         token = self.current()
